@@ -17,21 +17,22 @@ import (
 var gil sync.Mutex
 
 type Solver struct {
-	kind    string // z3 | z3-new | cvc5
-	cmd     *exec.Cmd
-	in      io.WriteCloser
-	out     *bufio.Reader
-	ctx     *Ctx
-	logf    *os.File
-	Queries int
-	NSat    int
-	NUnsat  int
-	NUnk    int
-	NErr    int
-	Time    time.Duration
-	lines   chan string
-	Fallbacks  int
-	FallbackBy string
+	kind        string // z3 | z3-new | cvc5
+	cmd         *exec.Cmd
+	in          io.WriteCloser
+	out         *bufio.Reader
+	ctx         *Ctx
+	logf        *os.File
+	Queries     int
+	NSat        int
+	NUnsat      int
+	NUnk        int
+	NErr        int
+	Time        time.Duration
+	lines       chan string
+	Fallbacks   int
+	FallbackBy  string
+	IncBudgetMs int // budget of the incremental attempt before a query goes one-shot to the portfolio (0 = the full query timeout)
 }
 
 func NewSolver(kind string, ctx *Ctx, logPath string) *Solver {
@@ -132,8 +133,8 @@ func (s *Solver) Check(as []*Term, timeoutMs int, wantModel bool) (string, map[s
 	// the incremental attempt gets a short budget; what it does not decide goes one-shot to the portfolio with the
 	// full budget (see fallback)
 	incMs := timeoutMs
-	if timeoutMs >= 10000 && incMs > 4000 {
-		incMs = 4000
+	if s.IncBudgetMs > 0 && timeoutMs >= 10000 && incMs > s.IncBudgetMs {
+		incMs = s.IncBudgetMs
 	}
 	if s.kind == "cvc5" {
 		// cvc5 has no per-query option; use tlimit-per via set-option
